@@ -37,6 +37,15 @@ def _template_main(lsock, ctl_r, repo_src: str, flavour: str) -> None:
         import warnings  # noqa: PLC0415
 
         warnings.simplefilter("ignore")
+        # identifiers that a default factory draws (`Field(default_factory=
+        # uuid4)` captures the function when the class is defined) come from
+        # the seeded stream too: the function is replaced in its home module
+        # before the library is imported
+        import uuid as _uuid  # noqa: PLC0415
+
+        from . import shims as _shims  # noqa: PLC0415
+
+        _uuid.uuid4 = _shims.sim_uuid4
         import soundevent  # noqa: PLC0415,F401
         import soundevent.data  # noqa: PLC0415,F401
         import soundevent.io  # noqa: PLC0415,F401
@@ -57,12 +66,12 @@ def _template_main(lsock, ctl_r, repo_src: str, flavour: str) -> None:
         for info in pkgutil.walk_packages(soundevent.__path__, "soundevent."):
             if flavour != "audio" and info.name.startswith(
                 ("soundevent.audio", "soundevent.plot")
-            ):
+            ) or info.name.rsplit(".", 1)[-1] == "__main__":
                 continue
             try:
                 importlib.import_module(info.name)
-            except Exception:  # noqa: BLE001  (optional dependency missing)
-                pass
+            except BaseException:  # noqa: BLE001  (optional dependency
+                pass               # missing, a script that exits on import)
         from . import nodeside, shims  # noqa: PLC0415
 
         installed = shims.install(aoef=True, audio=(flavour == "audio"))
@@ -86,6 +95,14 @@ def _template_main(lsock, ctl_r, repo_src: str, flavour: str) -> None:
             try:
                 lsock.close()
                 os.close(ctl_r)
+                # a node is an ordinary process: children it starts are
+                # waited for normally, and what the library prints or logs
+                # goes nowhere (never into a pipe that could fill up)
+                signal.signal(signal.SIGCHLD, signal.SIG_DFL)
+                devnull = os.open(os.devnull, os.O_RDWR)
+                for fd in (0, 1, 2):
+                    os.dup2(devnull, fd)
+                shims.new_flags()
                 nodeside.serve(conn)
             except BaseException:  # noqa: BLE001
                 traceback.print_exc()
